@@ -6,4 +6,44 @@ RUNS = {"quick": 50000, "thorough": 2000000}
 BUDGET_S = {"quick": 45, "thorough": 840}
 CHUNK = 400
 RULE = ("One evaluation = one seeded run with one well-behaved and 1-3 misbehaving client connections (abort without close, abort right after enqueue, EOF, 26 kinds of malformed/ill-typed/unknown/over-long/truncated requests, cancel of unknown ids, dependency on never-issued ids) interleaved with the task events of C11. Oracles: every accepted task (also those accepted from malformed requests) reaches a final state; get_task_states on the healthy connection equals the pool's table at the instant of the answer and its key set equals the ids issued so far; ids never repeat; enqueue replies carry the id the scheduler assigned; after the faults stop a new task is accepted and run. Non-trivial = a client fault fired and a state query was answered.")
-make_scenario = make({"C14"}, "pool_clients")
+_pool = make({"C14"}, "pool_clients")
+
+# every fifth run puts the real gwf CLI (Client, LocalOps, TrackingBackend) in the role of the well-behaved
+# client of the same real pool while other connections misbehave (Engine W, backend local)
+W_PROFILE = dict(
+    backends=["local"], sizes=[1, 2, 3, 4, 5], lengths=[8, 12, 20],
+    weights=dict(status=4, run=3, gwf_cancel=0.7, finish=4, bad_client=3, modify_source=0.3, delete_output=0.3,
+                 advance=0.3),
+    p_job_ok=0.6, p_hashing=0.1, nontrivial_probes=["backend_state_rows", "file_based_decisions"],
+)
+
+
+def make_scenario(seed=None, replay=None):
+    from sim.world_scenario import WorldScenario
+
+    if replay is not None:
+        use_world = "backend" in replay["knobs"]
+    else:
+        use_world = seed % 5 == 0
+    if use_world:
+        return WorldScenario({"C14"}, W_PROFILE, seed=seed, replay=replay, keep_trace=False)
+    return _pool(seed=seed, replay=replay)
+
+
+def simplify_knobs(knobs):
+    if "backend" in knobs:
+        from checks._world_common import simplify_knobs as sk
+
+        return sk(knobs)
+    from checks._pool_common import simplify_knobs as sk
+
+    return sk(knobs)
+
+
+def simplify_op(op):
+    from checks._pool_common import simplify_op as so
+
+    try:
+        return so(op)
+    except KeyError:
+        return []
